@@ -143,7 +143,8 @@ def pmap(fn: Callable, units: list, procs: Optional[int] = None, chunksize: int 
     else:
         ctx = mp.get_context("fork")
         with ctx.Pool(procs, maxtasksperchild=200) as pool:
-            it = pool.imap(_worker, [(fn, u) for u in units], chunksize)
+            # unordered: a slow unit must not hold back the results of the units that finished after it
+            it = (pool.imap if budget_s is None else pool.imap_unordered)(_worker, [(fn, u) for u in units], chunksize)
             for _ in range(len(units)):
                 try:
                     if budget_s is None:
